@@ -121,6 +121,9 @@ Definition gen_data (kind seed : N) (n : N) : list int :=
   if (kind =? 0)%N then gen_rand k (int_of_N seed)
   else if (kind =? 1)%N then repeat (int_of_N seed land 255) k
   else if (kind =? 2)%N then let c := gen_rand 1024 (int_of_N seed) in cycle_take k c c
+  else if (kind =? 4)%N then
+    let r := gen_rand k (int_of_N seed) in
+    firstn 700 r ++ repeat 0 (k - 700 - 300) ++ skipn (Nat.max 700 (k - 300)) r
   else gen_test k 0.
 
 (* 63-bit rolling digest (harness/src/common.rs digest) *)
